@@ -308,7 +308,28 @@ def arg_info(root, op, prepared):
     return {'donors': donors, 'attached_args': attached}
 
 
-ORACLES = {'inv': o_inv, 'refused': o_refused, 'frame': o_frame, 'reparse': o_reparse, 'nodouble': o_no_double}
+def o_nonedit(root, pre, op, res, extra):
+    """C04: claim / unclaim / auto-claim calls are not edits: printed text and the visible tokens (identity, order,
+    text) are exactly what they were, whether the call succeeds or raises."""
+    if op['kind'] not in ('claim', 'unclaim', 'claim-inter', 'unclaim-inter'):
+        return []
+    out = []
+    if intro.pr(root) != pre.text:
+        out.append((f'C04:text-changed:{op["kind"]}:{op["m"]}', f'{op["m"]} changed the printed text'))
+    vis_pre = [(i, t) for i, t in zip(pre.tok_ids, pre.tok_texts) if t]
+    vis_post = [(id(t), t.raw_text) for t in root.token_store if t.raw_text]
+    if vis_pre != vis_post:
+        out.append((f'C04:visible-tokens-changed:{op["kind"]}:{op["m"]}', f'{op["m"]} created, dropped, re-ordered or altered a visible token'))
+    return out
+
+
+def o_census(root, pre, op, res, extra):
+    """C14: ownership census after every call (at most one owner, claimed flag <=> owned, adjacency)."""
+    import commentsx
+    return [('C14:' + s_, d) for s_, d in commentsx.check_census(root)]
+
+
+ORACLES = {'nonedit': o_nonedit, 'census': o_census, 'inv': o_inv, 'refused': o_refused, 'frame': o_frame, 'reparse': o_reparse, 'nodouble': o_no_double}
 
 
 def run_history(text, auto_claim, ops, oracles, *, need_struct=False):
